@@ -86,6 +86,7 @@ type pathState struct {
 	reached   map[string]bool
 	protects  []*protectSet
 	forkMaps  bool
+	mapDir    int
 	noPanic   int // >0: inside a no-panic scope
 
 	// value-set fast path: domains of small variables constrained only by
